@@ -13,10 +13,11 @@ NOT_YET = "no check registered yet in this round (see DESIGN.md section 7 for th
 def main():
     props = [json.loads(l) for l in (ROOT / "properties.jsonl").read_text().splitlines() if l.strip()]
     checks, na, engines = [], [], {}
+    integrated = set((ROOT / "integrated.txt").read_text().split())
     for p in props:
         pid = p["id"]
         f = ROOT / "checks" / (pid.lower() + ".py")
-        if not f.exists():
+        if not f.exists() or pid not in integrated:
             na.append({"property_id": pid, "reason": NOT_YET})
             continue
         m = importlib.import_module("checks." + pid.lower())
